@@ -17,12 +17,34 @@ type Ghost struct {
 
 func newGhost(e *Engine) *Ghost { return &Ghost{e: e} }
 
-func (g *Ghost) globalFact(c *FnCtx, gl *ssa.Global, term string) string { return "" }
+// globalFact: what is known about the value of an init-only global from its initialiser.
+func (g *Ghost) globalFact(c *FnCtx, gl *ssa.Global, term string) string {
+	info := g.e.constGlob[gl]
+	if info == nil || info.value == nil {
+		return ""
+	}
+	switch v := info.value.(type) {
+	case *ssa.Function:
+		return fmt.Sprintf("(and (> %s 0) (= %s %d))", term, c.cloFn(term), g.e.fnID(v))
+	case *ssa.MakeClosure:
+		if len(v.Bindings) == 0 {
+			return fmt.Sprintf("(and (> %s 0) (= %s %d))", term, c.cloFn(term), g.e.fnID(v.Fn.(*ssa.Function)))
+		}
+	case *ssa.ChangeType:
+		if f, ok := v.X.(*ssa.Function); ok {
+			return fmt.Sprintf("(and (> %s 0) (= %s %d))", term, c.cloFn(term), g.e.fnID(f))
+		}
+	}
+	return ""
+}
 
 // ---- hooks called by the executor (no-ops unless a ghost discipline is active) ----
 
 func (e *Engine) onStore(c *FnCtx, st *State, l *Loc, v Val, pos token.Pos) {
 	if l.Kind == locField && isMessageStruct(l.RootT) {
+		if derefMsgType(v.T) != nil || c.ty.SortOf(v.T) == sIface || c.ty.SortOf(v.T) == sSlice {
+			c.grafts = append(c.grafts, l.Ref) // an existing (sub-)message/list may have been grafted into this object
+		}
 		if _, ok := e.comps[msgComp]; ok {
 			st.heap[msgComp] = c.sc.Fresh(msgComp+"$store", e.comps[msgComp])
 		}
@@ -149,7 +171,7 @@ var pureLibPrefixes = []string{
 	"fmt.Sprintf", "fmt.Sprint", "fmt.Errorf", "errors.New", "strconv.", "strings.", "encoding/base64.", "(*encoding/base64.Encoding).",
 	"google.golang.org/grpc/status.Error", "google.golang.org/grpc/status.Errorf", "google.golang.org/grpc/status.Code",
 	"google.golang.org/grpc/status.FromError", "google.golang.org/grpc/status.Convert", "(*google.golang.org/grpc/status.Status).",
-	"math.", "unicode.", "unicode/utf8.", "path.", "crypto/md5.", "hash/fnv.", "encoding/hex.",
+	"google.golang.org/protobuf/proto.Marshal", "math.", "unicode.", "unicode/utf8.", "path.", "crypto/md5.", "hash/fnv.", "encoding/hex.",
 	"(time.Duration).", "time.Duration.", "(time.Time).", "time.Time.", "time.Unix", "time.Date",
 }
 
@@ -254,6 +276,28 @@ func init() {
 	}
 	preludeTable["context.WithTimeout"] = func(c *FnCtx, fr *Frame, st *State, fn *ssa.Function, args []Val, pos token.Pos) *Val {
 		return preludeTable["context.WithCancel"](c, fr, st, fn, args, pos)
+	}
+	// errors: constructors return non-nil errors; gRPC status errors carry their code (nil for codes.OK)
+	nonNilErr := func(c *FnCtx, fr *Frame, st *State, fn *ssa.Function, args []Val, pos token.Pos) *Val {
+		r := c.fresh("err", fn.Signature.Results().At(0).Type(), st)
+		c.assume(st, "(not (= (i-tag "+r.E+") 0))")
+		return &r
+	}
+	preludeTable["errors.New"] = nonNilErr
+	preludeTable["fmt.Errorf"] = nonNilErr
+	statusErr := func(c *FnCtx, fr *Frame, st *State, fn *ssa.Function, args []Val, pos token.Pos) *Val {
+		r := c.fresh("statusErr", fn.Signature.Results().At(0).Type(), st)
+		c.sc.Decl("errcode", "(declare-fun |errcode| (Iface) Int)")
+		c.assume(st, "(= (= (i-tag "+r.E+") 0) (= "+args[0].E+" 0))")
+		c.assume(st, "(= (|errcode| "+r.E+") "+args[0].E+")")
+		return &r
+	}
+	preludeTable["google.golang.org/grpc/status.Error"] = statusErr
+	preludeTable["google.golang.org/grpc/status.Errorf"] = statusErr
+	preludeTable["google.golang.org/grpc/status.Code"] = func(c *FnCtx, fr *Frame, st *State, fn *ssa.Function, args []Val, pos token.Pos) *Val {
+		c.sc.Decl("errcode", "(declare-fun |errcode| (Iface) Int)")
+		r := Val{T: fn.Signature.Results().At(0).Type(), E: c.sc.Define("code", sInt, Ite("(= (i-tag "+args[0].E+") 0)", "0", "(|errcode| "+args[0].E+")"))}
+		return &r
 	}
 	preludeTable["math.Floor"] = func(c *FnCtx, fr *Frame, st *State, fn *ssa.Function, args []Val, pos token.Pos) *Val {
 		x := args[0].E
